@@ -70,6 +70,9 @@ def run(model, tier="quick"):
     if "R-CACHE" not in res.rules:
         res.rules.append("R-CACHE")
     res.units["aave_cache_writer_methods"] = run_cache(model, res, "AaveV3Market", res.prop)[0]
+    # constructors establish the relations between fields that the references above take for granted
+    from .ctor_refs import constructors
+    res.units["constructor_references"] = constructors(res, model, ('aave', 'market'))
     from ..rules.fresh import fresh_rule
     if "R-FRESH" not in res.rules:
         res.rules.append("R-FRESH")
